@@ -28,9 +28,19 @@ def curReq : HPc → Option Req
   | .wantUpd s _ _ => some (.activate s)
   | .snapMod s _ _ _ => some (.activate s)
   | .snapSend s _ _ _ _ _ => some (.activate s)
+  | .wantAcc w m p e _ => some (.rw w m p e)
+  | .relAcc w m p e _ => some (.rw w m p e)
   | .relDisp r _ => some r
   | .rep r _ => some r
 
+@[simp] theorem curReq_wantAcc (w m p e n) : curReq (.wantAcc w m p e n) = some (.rw w m p e) := rfl
+@[simp] theorem curReq_relAcc (w m p e n) : curReq (.relAcc w m p e n) = some (.rw w m p e) := rfl
+@[simp] theorem curReq_afterCall (w m p e n) : curReq (afterCall w m p e n) = some (.rw w m p e) := by
+  unfold afterCall; split <;> rfl
+@[simp] theorem curReq_afterStart (cfg r) : curReq (afterStart cfg r) = some r := by
+  cases r with
+  | rw w m p e => by_cases hk : cfg.rw w m p = .calls <;> simp [afterStart, hk, curReq]
+  | _ => rfl
 @[simp] theorem curReq_idle : curReq .idle = none := rfl
 @[simp] theorem curReq_done : curReq .done = none := rfl
 @[simp] theorem curReq_start (r) : curReq (.start r) = some r := rfl
@@ -108,7 +118,7 @@ theorem matchInv_reach (cfg : Cfg) (hs us cache) (σ : State) (h : Reach cfg (in
     unfold step at hstep
     split at hstep
     · exact matchInv_stepH cfg _ _ _ ih hstep
-    · exact matchInv_stepU cfg _ _ _ _ ih hstep
+    · exact matchInv_stepU cfg _ _ _ _ ih (stepUG_some hstep)
 
 /-! ## index form -/
 
